@@ -1,6 +1,7 @@
 import SpowtdModel.Driver.ClassifyCmd
 import SpowtdModel.Driver.LoadCmd
 import SpowtdModel.Driver.CurvesCmd
+import SpowtdModel.Driver.TxnCmd
 open Lean Spowtd Spowtd.Driver
 
 def dispatch (cmd : String) (j : Json) : Except String Json :=
@@ -14,6 +15,8 @@ def dispatch (cmd : String) (j : Json) : Except String Json :=
   | "load.f" => cmdLoad (α := Float) j
   | "load.q" => cmdLoad (α := Rat) j
   | "timestamp" => cmdTimestamp j
+  | "txn.check" => cmdTxnCheck j
+  | "txn.footprints" => cmdFootprints j
   | "regrid.q" => cmdRegrid (α := Rat) j
   | "regrid.f" => cmdRegrid (α := Float) j
   | "headmap.q" => cmdHeadmap (α := Rat) j
